@@ -65,7 +65,55 @@ type filterSpec struct {
 	Kind int // 0 PoisonQueue (no filter), 1 always, 2 never, 3 errors.Is sentinel, 4 identity with returned error, 5 identity of pkg-errors Cause with sentinel, 6 text contains "wrap:", 7 text == ""
 }
 
-var filterNames = []string{"PoisonQueue", "always", "never", "errors.Is(sentinel)", "err==returned", "Cause(err)==sentinel", "text contains wrap:", "text empty"}
+var filterNames = []string{"PoisonQueue", "always", "never", "errors.Is(sentinel)", "err==returned", "Cause(err)==sentinel", "text contains wrap:", "text empty", "stateful: accepts its first consultation only", "stateful: rejects its first consultation only"}
+
+// scriptedFilter is a filter with state (budgets, samplers, circuit-breaker-like filters are such): its verdict depends on
+// how often it was consulted. It logs every verdict it gave.
+type scriptedFilter struct {
+	mu       sync.Mutex
+	first    bool
+	verdicts []bool
+}
+
+func (f *scriptedFilter) fn(error) bool {
+	f.mu.Lock()
+	defer f.mu.Unlock()
+	v := f.first
+	if len(f.verdicts) > 0 {
+		v = !f.first
+	}
+	f.verdicts = append(f.verdicts, v)
+	return v
+}
+
+// poisonedBy is the model's verdict. For a pure filter it is filter(e). A stateful filter is judged by the verdicts it
+// actually gave: if they agree, that is the verdict; if the middleware consulted it more than once and the answers
+// differ, either verdict is acceptable but the outcome must be one of the two legal ones in full, so the side the
+// observed number of poison publishes points to is checked.
+func poisonedBy(c caseT, sf *scriptedFilter, e error, publishes int) bool {
+	if e == nil {
+		return false
+	}
+	if sf == nil {
+		return c.Filter.fn(e)(e)
+	}
+	sf.mu.Lock()
+	defer sf.mu.Unlock()
+	if len(sf.verdicts) == 0 {
+		return publishes > 0 // never asked: then nothing may have been published (checked by the caller's not-poisoned branch)
+	}
+	all := true
+	for _, v := range sf.verdicts {
+		if v != sf.verdicts[0] {
+			all = false
+		}
+	}
+	if all {
+		return sf.verdicts[0]
+	}
+	lib.Count("stateful-filter-consulted-more-than-once-with-different-answers", 1)
+	return publishes > 0
+}
 
 func (f filterSpec) fn(returned error) func(error) bool {
 	switch f.Kind {
@@ -105,7 +153,7 @@ func genCase(t *rapid.T) caseT {
 	c.Err.Kind = rapid.SampledFrom([]int{0, 0, 1, 2, 3, 4, 5, 6, 7, 8}).Draw(t, "errKind")
 	c.Err.Text = rapid.SampledFrom([]string{"boom", "wrap: inner", "", "sentinel failure", "é\n"}).Draw(t, "errText")
 	c.Outputs = rapid.IntRange(0, 2).Draw(t, "outputs")
-	c.Filter.Kind = rapid.IntRange(0, 7).Draw(t, "filter")
+	c.Filter.Kind = rapid.IntRange(0, 9).Draw(t, "filter")
 	c.PubFails = rapid.IntRange(0, 2).Draw(t, "poisonPublishFails") == 0
 	return c
 }
@@ -116,18 +164,22 @@ func (c caseT) canon() string {
 
 var errPoisonPub = stderrors.New("poison publisher down")
 
-func newMW(t *rapid.T, c caseT, pub message.Publisher, returned error) message.HandlerMiddleware {
+func newMW(t *rapid.T, c caseT, pub message.Publisher, returned error) (message.HandlerMiddleware, *scriptedFilter) {
 	var mw message.HandlerMiddleware
 	var err error
+	var sf *scriptedFilter
 	if c.Filter.Kind == 0 {
 		mw, err = middleware.PoisonQueue(pub, "poison")
+	} else if c.Filter.Kind >= 8 {
+		sf = &scriptedFilter{first: c.Filter.Kind == 8}
+		mw, err = middleware.PoisonQueueWithFilter(pub, "poison", sf.fn)
 	} else {
 		mw, err = middleware.PoisonQueueWithFilter(pub, "poison", c.Filter.fn(returned))
 	}
 	if err != nil {
 		t.Fatalf("constructor failed: %v", err)
 	}
-	return mw
+	return mw, sf
 }
 
 // checkPoisonPublish verifies the content of the poison message.
@@ -180,7 +232,7 @@ func TestPoisonStandAlone(t *testing.T) {
 			}
 			return nil
 		}
-		mw := newMW(t, c, pub, e)
+		mw, sf := newMW(t, c, pub, e)
 		var outs []*message.Message
 		for i := 0; i < c.Outputs; i++ {
 			outs = append(outs, message.NewMessage(fmt.Sprint("o", i), nil))
@@ -198,7 +250,7 @@ func TestPoisonStandAlone(t *testing.T) {
 			t.Fatalf("violation: handler called %d times", calls)
 		}
 		pcs := pub.Calls()
-		poisoned := e != nil && c.Filter.fn(e)(e)
+		poisoned := poisonedBy(c, sf, e, len(pcs))
 		switch {
 		case !poisoned:
 			if len(pcs) != 0 {
@@ -279,7 +331,8 @@ func TestPoisonInRouter(t *testing.T) {
 		if err != nil {
 			t.Fatalf("NewRouter: %v", err)
 		}
-		router.AddMiddleware(newMW(t, c, pub, e))
+		pmw, sf := newMW(t, c, pub, e)
+		router.AddMiddleware(pmw)
 		calls := 0
 		router.AddNoPublisherHandler(hname, topic, sub, func(m *message.Message) error {
 			calls++
@@ -315,7 +368,7 @@ func TestPoisonInRouter(t *testing.T) {
 			lib.Count("router_close_slow", 1)
 		}
 		pcs := pub.Calls()
-		poisoned := e != nil && c.Filter.fn(e)(e)
+		poisoned := poisonedBy(c, sf, e, len(pcs))
 		wantAck := e == nil || (poisoned && !c.PubFails)
 		if acked != wantAck {
 			t.Fatalf("violation: message acked=%v, model says %v (error %v, filter %s, poison publish fails=%v)", acked, wantAck, e, filterNames[c.Filter.Kind], c.PubFails)
